@@ -47,9 +47,14 @@ func main() {
 			if *only >= 0 && i != *only {
 				continue
 			}
-			for attempt := 0; attempt < 5; attempt++ {
+			maxAttempts := 5
+			if slowOK {
+				maxAttempts = 2 // an abandoned slow history (a taint stamped after a 5 s rebuild sleep) has cost real time already
+			}
+			for attempt := 0; attempt < maxAttempts; attempt++ {
 				fmt.Fprintf(w, "{\"op\":\"begin\",\"hist\":%d,\"seed\":%d,\"attempt\":%d}\n", i, *seed, attempt)
-				h := newHist(newRng(hr.s), w)
+				// a retry plays another history: what made the first one unusable may be systematic, not a fluke of timing
+				h := newHist(newRng(hr.s+uint64(attempt)*0x9e3779b97f4a7c15), w)
 				ok, why := h.runHistory(*scans)
 				for k, v := range h.stats {
 					stats[k] += v
